@@ -111,11 +111,11 @@ def remove_first(val: str, arg: str) -> str:
 def remove_last(val: str, arg: str) -> str:
     """Return a copy of _val_ with last occurrence of _arg_ removed."""
     try:
-        before, _, after = val.rpartition(to_liquid_string(arg))
+        before, found, after = val.rpartition(to_liquid_string(arg))
     except ValueError:
         # empty separator
         return val
-    if before:
+    if found:
         return before + after
     return val
 
@@ -136,11 +136,11 @@ def replace_first(val: str, seq: str, sub: str = "") -> str:
 def replace_last(val: str, seq: str, sub: str) -> str:
     """Return a copy of _val_ with the last occurrence of _seq_ replaced with _sub_."""
     try:
-        before, _, after = val.rpartition(to_liquid_string(seq))
+        before, found, after = val.rpartition(to_liquid_string(seq))
     except ValueError:
         # empty separator
         return val + to_liquid_string(sub)
-    if before:
+    if found:
         return before + to_liquid_string(sub) + after
     return val
 
